@@ -166,6 +166,51 @@ def connect_events(state: int, active: bool, ev: int) -> bool:
                and bytes(p._receive_buffer._buffer) == fresh)
 
 
+def own_request_step(which: int, outcome: int, start: int, status: int, state: int) -> bool:
+    """
+    pre: 0 <= which <= 2 and 0 <= outcome <= 2 and 0 <= start < 2**32 and 0 <= status < 256
+    pre: 1 <= state <= 2
+    pre: which == 2 or state == which + 1
+    post: _
+    """
+    # (Select is requested while NOT SELECTED, Deselect while SELECTED, Linktest in both)
+    # the endpoint's own Select / Deselect / Linktest request: answered in time (outcome 0), send failure (1), T6 expiry (2);
+    # afterwards no transaction may stay open, and a LATE response with the same system bytes must not change the session
+    p, c, delivered = rig.make_protocol()
+    rig.set_state(p, state)
+    p._system_counter = start
+    p._settings.timeouts.t6 = 0
+    mine = (start + 1) % 2**32
+    rsp_type = pick([2, 4, 6], which)
+    real_send = c.send_data
+
+    def send(data):
+        if outcome == 1:
+            return False
+        ok = real_send(data)
+        if outcome == 0:
+            p._dispatch_block(p, HsmsBlock(HsmsHeader(mine, 0xFFFF, 0, status, False, 0, HsmsSType(rsp_type)), b""))
+        return ok
+    c.send_data = send
+    r = pick([p.send_select_req, p.send_deselect_req, p.send_linktest_req], which)()
+    if len(p._response_queues) != 0:
+        return False                                   # the transaction is closed in every outcome
+    if outcome == 0:
+        if r is None or r.header.system != mine:
+            return False
+        want = _STATES[state]
+        if status == 0 and which == 0:
+            want = ConnectionState.CONNECTED_SELECTED
+        if status == 0 and which == 1:
+            want = ConnectionState.CONNECTED_NOT_SELECTED
+        return fin(p.connection_state.current == want)
+    if r is not None:
+        return False
+    before = p.connection_state.current
+    p._dispatch_block(p, HsmsBlock(HsmsHeader(mine, 0xFFFF, 0, 0, False, 0, HsmsSType(rsp_type)), b""))
+    return fin(p.connection_state.current == before and len(p._response_queues) == 0)
+
+
 def _open(fid):
     import json
     import os
@@ -189,6 +234,10 @@ OBLIGATIONS = [
          bounds="NOT_SELECTED / SELECTED, W-bit, all system bytes, S1F1 and every header-only S99Fxx, optional open transaction",
          outside="messages with bodies (C08)",
          findings=[dict(id="C05-uncatalogued-data", pred=UNCATALOGUED)]),
+    dict(name="own_request_step", fn="own_request_step", timeout=300,
+         functions=["HsmsProtocol.send_select_req/send_deselect_req/send_linktest_req", "__handle_hsms_requests_*_rsp"],
+         bounds="own Select/Deselect/Linktest request from both connected states, any counter start, any status byte: answered in time / "
+                "send failure / T6 expiry (T6 = 0), then a late response with the expired system bytes"),
     dict(name="select_in_flight", fn="select_in_flight", timeout=120,
          functions=["_dispatch_block before _on_connected (accept-thread interleaving as an order obligation)"],
          bounds="Select.req with arbitrary system bytes dispatched at the moment the dispatcher is started inside _on_connected",
